@@ -37,6 +37,14 @@ pub fn gen_expr(
                 env,
             );
 
+            // the expression as a whole has the type of the default
+            constr.add(
+                "question",
+                &Expected::from(ast),
+                &Expected::from(right),
+                env,
+            );
+
             generate(left, env, ctx, constr)?;
             generate(right, env, ctx, constr)?;
             Ok(env.clone())
